@@ -219,7 +219,13 @@ NAMES = ("a", "b", "c", "d", "args", "*args", "kw", "**kw", "p", "rest", "*rest"
 TYPES = ("int", "str", "list[int]", "tuple[int, str]", "Optional[int]", "int or str", "{1, 2}", "{'a', 'b'}", "int, optional",
          "int, default 3", "int, default: 3", "int, default=3", "str, optional, default 'x'", "(", ")", "[", "((int))", "lambda: 0",
          "a.b.c", "'str'", "x y", "1 +", "None", "...", "", " ", "*", "**x", "not valid [", "Iterator[int]", "C", "m.C", "é", "int | None",
-         "f(x)", "x:y", "{", "{}", "a, b", ": int", "`int`", "int :")  # fmt: skip
+         "f(x)", "x:y", "{", "{}", "a, b", ": int", "`int`", "int :",
+         # compilable (or nearly) expressions that are unusual as annotations: every ast expression class, incl. the ones Griffe's
+         # expression builder has no node for (Await), starred/walrus/f-string/comprehension/conditional forms, long dotted names
+         "await x", "await x", "await y.z(1)", "yield", "yield x", "yield from x", "*a", "(a := 1)", "f'{a}'", "f'{a!r:>{w}}'", "a if b else c",
+         "[i for i in x]", "{k: v for k, v in x}", "(i async for i in x)", "not a", "-a", "a and b", "a < b <= c", "x[1:2]", "x[1:2, ::3]",
+         "{**a}", "{*a}", "[*a, b]", "a @ b", "b'x'", "1j", "x.y(z, *a, k=1, **kw)", "a.b.c.d.e.f.g.h.i.j.k.l.m.n.o.p.q.r.s.t.u.v.w.x.y.z",
+         "x[", "x]", "((", "[(])", "a = b", "1 if", "lambda *a, b=1, **k: (yield)", "await", "x[await y]", "list[await x]")  # fmt: skip
 WORDS = ("Summary.", "text", "Some more words here", "e.g. this", "trailing space ", "naïve café", "日本語", "émoji ✓", "a - b", "- bullet",
          "* star", "1. one", "x = y", "(paren)", "`code`", "http //x", "end.", "Returns nothing", "Note", "Args", "deprecated", "0.1.0",
          "--- x", "x ---", "a b", "tab\there", "cr\r", "\x0cff", "> quote", "#", "..", "<BLANKLINE>", "| a | b |")  # fmt: skip
